@@ -22,7 +22,8 @@ type ChildParams struct {
 // NewChild create new instance of child scope
 func NewChild(parent app.Scope, params ChildParams) app.Scope {
 	var sid string
-	parent.AddTasks(1)
+	// a parent that is already done refuses new tasks: such a child must not sign off at it
+	registered := parent.AddTasks(1) == nil
 	if params.ContextScope == nil {
 		params.ContextScope = parent.BaseContextScope()
 	}
@@ -45,6 +46,7 @@ func NewChild(parent app.Scope, params ChildParams) app.Scope {
 	}
 	return &Scope{
 		parent:       parent,
+		registered:   registered,
 		sid:          sid,
 		cid:          params.CID,
 		ContextScope: params.ContextScope,
